@@ -347,6 +347,31 @@ Theorem C06_splice_drop_fused :
                 else repeat ENext (length ts))) ++ uevents u.
 Proof. exact splice_drop_fused. Qed.
 
+(** a lazy clone offered to push / insert whose Clone panics (through the glue of Interp.exec: source read, type check, raw operation, unwinding): refusals come first and are unchanged, otherwise nothing is created; push leaves the vector as it was, insert keeps the prefix and leaks the hidden tail (D9) *)
+Theorem C06_lazy_offer_fused :
+  forall (c : cfg) (w : world) (st : astate) (vid : nat) (idx : option N) (d : N) 
+           (src : nat) (sidx : N) (r : sres),
+         cfg_wf c ->
+         WRep c w st ->
+         ufuse (wuw w) = Some 0 ->
+         adm_vec c w vid ->
+         sp_offer_lazy_f c st (unext (wuw w)) vid idx src sidx = Some r ->
+         res_matches_f c w
+           ((do o <- make_offer c (SLazy d src sidx); offer_into c vid o (raw_action c idx);; ret (0, [])) w) r.
+Proof. exact exec_offer_lazy_f. Qed.
+
+(** the same for a lazy clone of a value the caller owns: that value is destroyed by the caller, once *)
+Theorem C06_user_lazy_offer_fused :
+  forall (c : cfg) (w : world) (st : astate) (vid : nat) (idx : option N) (d : N) (r : sres),
+         cfg_wf c ->
+         WRep c w st ->
+         ufuse (wuw w) = Some 0 ->
+         adm_vec c w vid ->
+         sp_offer_userlazy_f c st (unext (wuw w)) vid idx = Some r ->
+         res_matches_f c w
+           ((do o <- make_offer c (SLazyUser d); offer_into c vid o (raw_action c idx);; ret (0, [])) w) r.
+Proof. exact exec_offer_userlazy_f. Qed.
+
 (** one script step, with or without a fuse *)
 Theorem C06_step_refines_fused :
   forall (c : cfg) (w : world) (st : astate) (fuse : option N) (o : op) (r : sres),
@@ -413,7 +438,10 @@ Theorem C06_example_outcomes :
           (2, 8, [EDrop 19; EDrop 20; EDrop 22; EDrop 23], [[]; []; [18]]); (0, 0, [], [[]; []; [18; 24]]);
           (0, 0, [], [[]; []; [18; 24; 25]]); (0, 0, [], [[]; []; [18; 24; 25; 26]]);
           (2, 8, [EDrop 24; ENext; ENext; EDrop 28; EDrop 29], [[]; []; [18]]);
-          (0, 0, [EDrop 18; ENext], [[]; []; [30]])].
+          (0, 0, [EDrop 18; ENext], [[]; []; [30]]); (0, 0, [], [[]; []; [30]; []]);
+          (0, 0, [], [[]; []; [30]; [31]]); (0, 0, [], [[]; []; [30]; [31; 32]]);
+          (2, 8, [], [[]; []; [30]; [31; 32]]); (2, 8, [], [[]; []; [30]; [31]]);
+          (2, 8, [EDrop 33], [[]; []; [30]; []])].
 Proof. exact exf_outcomes. Qed.
 
 (* ---- end histories ---- *)
@@ -434,6 +462,8 @@ Print Assumptions C06_handle_drop_fused.
 Print Assumptions C06_drop_range_fused.
 Print Assumptions C06_splice_fill_fused.
 Print Assumptions C06_splice_drop_fused.
+Print Assumptions C06_lazy_offer_fused.
+Print Assumptions C06_user_lazy_offer_fused.
 Print Assumptions C06_step_refines_fused.
 Print Assumptions C06_history_refines_fused.
 Print Assumptions C06_history_accounting_fused.
